@@ -200,6 +200,66 @@ Example C16_multisig_counts_disagree :
   (exists asm, script_info_bscript ([x51; x21; x02] ++ repeat x07 32 ++ [x00; xae]) = JOk (asm, 0, "multisig"%string)).
 Proof. split; eexists; vm_compute; reflexivity. Qed.
 
+(** ** destinations with a past (round 8; model/JsonHeap.v, proofs/JsonHeapProofs.v).  encoding/json decodes a JSON
+    array INTO the elements a []*UTXO already has (the ones up to its length and the stale ones up to its capacity), so
+    UTXO.UnmarshalJSON runs on objects whose TxID slice and script object may be shared with each other, with the
+    transaction they come from, with transactions built from them.  Over a heap of buffers and UTXO objects: whatever
+    the destination's elements share, the list read back is the list that was marshalled (txid bytes, vout, script bytes,
+    satoshis of every element), no buffer that existed is written, and every object that is not one of the reused
+    elements reads as before.  Hypothesis of the library dialect, imposed by encoding/json on any []*T destination: the
+    reused elements are distinct objects ([C16_same_pointer_twice]: one pointer twice is decoded into twice).  The node
+    dialect builds the list anew: no hypothesis on what the destination held. *)
+From GoBT Require Import model.JsonHeap proofs.JsonHeapProofs.
+Theorem C16_utxos_roundtrip_into_used_destination : forall h backing us,
+  heap_ok h ->
+  NoDup (reused backing (List.length us)) ->
+  Forall (fun a => a < List.length (h_objs h))%nat (reused backing (List.length us)) ->
+  exists js h' l,
+    marshal_utxos us = JOk js /\
+    unmarshal_utxos_into h backing js = JOk (h', l) /\
+    map (fun a => fields (view h' a)) l = map fields us /\
+    (exists ext, h_bufs h' = h_bufs h ++ ext) /\
+    (forall b, (b < List.length (h_objs h))%nat -> ~ In b (reused backing (List.length us)) -> view h' b = view h b).
+Proof. exact utxos_roundtrip_into_used_destination. Qed.
+Print Assumptions C16_utxos_roundtrip_into_used_destination.
+Theorem C16_node_utxos_roundtrip_into_used_destination : forall h backing us,
+  heap_ok h -> Forall (fun u => u_sats u <= max_money) us ->
+  exists js h' l,
+    node_marshal_utxos us = JOk js /\
+    node_unmarshal_utxos_into h backing js = JOk (h', l) /\
+    map (fun a => fields (view h' a)) l = map fields us /\
+    (exists ext, h_bufs h' = h_bufs h ++ ext) /\
+    (forall b, (b < List.length (h_objs h))%nat -> view h' b = view h b).
+Proof. exact node_utxos_roundtrip_into_used_destination. Qed.
+Print Assumptions C16_node_utxos_roundtrip_into_used_destination.
+(** one object refreshed from document after document: it reads as the value-level decoder says, nothing else changes *)
+Theorem C16_utxo_refresh : forall h a j u, heap_ok h -> (a < List.length (h_objs h))%nat ->
+  unmarshal_utxo (view h a) j = JOk u ->
+  exists h', unmarshal_utxo_at h a j = JOk h' /\ view h' a = u /\ heap_ok h' /\
+             (exists ext, h_bufs h' = h_bufs h ++ ext) /\ (forall b, b <> a -> view h' b = view h b).
+Proof. exact utxo_refresh. Qed.
+Print Assumptions C16_utxo_refresh.
+(** the hypothesis NoDup cannot be dropped for the library dialect (encoding/json's doing, not utxojson.go's), and is
+    not needed for the node dialect *)
+Example C16_same_pointer_twice :
+  match unmarshal_utxos_into alias_heap [Some 0%nat; Some 0%nat] alias_docs with
+  | JOk (h', l) => map (fun a => u_vout (view h' a)) l = [1; 1]
+  | _ => False
+  end.
+Proof. exact alias_example. Qed.
+(** non-vacuity: a destination as Tx.AddP2PKHInputsFromTx-style code builds it - two objects, ONE txid buffer, one
+    script object - satisfies the hypotheses *)
+Example C16_shared_destination_ok :
+  let h := mkHeap [[x01; x02]; [x51]] [mkUObj (Some (mkSlice 0 0 2)) 0 (Some 1%nat) 5 0; mkUObj (Some (mkSlice 0 0 2)) 1 (Some 1%nat) 6 0] in
+  heap_ok h /\ NoDup (reused [Some 0%nat; Some 1%nat] 2) /\
+  Forall (fun a => a < List.length (h_objs h))%nat (reused [Some 0%nat; Some 1%nat] 2).
+Proof.
+  cbn. split; [|split].
+  - repeat constructor; cbn; auto.
+  - repeat constructor; cbn; intuition discriminate.
+  - repeat constructor.
+Qed.
+
 (** ** the hypothesis [~ ambiguous] cannot be dropped: NewTx() with LockTime 0xEF000000 marshals
     in both dialects to a document that does not unmarshal (a FINDING: C16's text does not exclude
     this shape; C01's does).  Full statement that is therefore false:
